@@ -1,5 +1,5 @@
 (* Dispatch entries for the Ninja models. *)
-From BFG Require Import Base.Chars Base.Sx Shell.PosixQuote Make.MakeWrite Ninja.NinjaWrite Ninja.NinjaRead.
+From BFG Require Import Base.Chars Base.Sx Shell.PosixQuote Make.MakeWrite Ninja.NinjaWrite Ninja.NinjaRead Ninja.NinjaManifest Ninja.NinjaFileWrite.
 From Coq Require Import String.
 Local Open Scope N_scope.
 
@@ -26,6 +26,42 @@ Definition un_ntok (x : sx) : ntok :=
   if N.eqb (un_N (nth_sx 0 x)) 0 then TC (un_N (nth_sx 1 x)) else TV (un_str (nth_sx 1 x)).
 Definition un_alist (x : sx) : alist := List.map (fun p => (un_str (nth_sx 0 p), un_str (nth_sx 1 p))) (un_list x).
 
+Definition sx_toks (ts : toks) : sx := sx_list sx_ntok ts.
+Definition sx_alist (l : alist) : sx := sx_list (sx_pair sx_str sx_str) l.
+Definition sx_tbinds (l : list (str * toks)) : sx := sx_list (sx_pair sx_str sx_toks) l.
+Definition sx_rule (r : rule) : sx := L [sx_str (r_name r); sx_tbinds (r_binds r)].
+Definition sx_edge (e : edge) : sx :=
+  L [sx_list sx_str (e_outs e); sx_str (e_rule e); sx_list sx_str (e_ins e); sx_list sx_str (e_implicit e);
+     sx_list sx_str (e_order e); sx_alist (e_binds e); sx_tbinds (e_raw e); sx_bool (refs_earlier [] (e_raw e))].
+Definition sx_manifest (m : manifest) : sx :=
+  L [sx_alist (m_vars m); sx_list sx_rule (m_rules m); sx_list sx_edge (m_edges m); sx_list sx_str (m_defaults m)].
+(* [text, file-scope override] : the parsed manifest with its file scope replaced (the harness substitutes the
+   tool variables by the argv recorder); an override that is not a list (A 0) keeps the parsed scope *)
+Definition un_manifest (a : sx) : option manifest :=
+  match parse_manifest (un_str (nth_sx 0 a)) with
+  | Some m => Some (match nth_sx 1 a with A _ => m | L _ => with_vars m (un_alist (nth_sx 1 a)) end)
+  | None => None
+  end.
+Definition sx_edge_values (m : manifest) (e : edge) : sx :=
+  L [sx_opt sx_str (edge_binding true m e s_command); sx_opt sx_str (edge_binding false m e s_depfile);
+     sx_opt sx_str (edge_binding true m e s_deps); sx_opt sx_str (edge_binding true m e s_description)].
+
+(* NinjaFile contents: [bfgfile, opt min_version, path vars, command vars, flags vars, other vars, rules, builds,
+   defaults]; vars = [[name items]..]; rule = [name command opt-depfile opt-deps opt-description generator opt-pool
+   restat]; build = [outs rule ins implicit order_only vars] *)
+Definition un_vars (x : sx) : list (str * items) :=
+  List.map (fun p => (un_str (nth_sx 0 p), un_nitems (nth_sx 1 p))) (un_list x).
+Definition un_wrule (x : sx) : wrule :=
+  mkWRule (un_str (nth_sx 0 x)) (un_nitems (nth_sx 1 x)) (un_opt un_nitems (nth_sx 2 x)) (un_opt un_nitems (nth_sx 3 x))
+          (un_opt un_nitems (nth_sx 4 x)) (un_bool (nth_sx 5 x)) (un_opt un_nitems (nth_sx 6 x)) (un_bool (nth_sx 7 x)).
+Definition un_wbuild (x : sx) : wbuild :=
+  mkWBuild (un_nitems (nth_sx 0 x)) (un_str (nth_sx 1 x)) (un_nitems (nth_sx 2 x)) (un_nitems (nth_sx 3 x))
+           (un_nitems (nth_sx 4 x)) (un_vars (nth_sx 5 x)).
+Definition un_wfile (x : sx) : wfile :=
+  mkWFile (un_str (nth_sx 0 x)) (un_opt un_str (nth_sx 1 x)) (un_vars (nth_sx 2 x)) (un_vars (nth_sx 3 x))
+          (un_vars (nth_sx 4 x)) (un_vars (nth_sx 5 x)) (List.map un_wrule (un_list (nth_sx 6 x)))
+          (List.map un_wbuild (un_list (nth_sx 7 x))) (un_nitems (nth_sx 8 x)).
+
 Definition table : list (string * (sx -> sx)) := [
   ("ninja.escape_str", fun a => sx_opt sx_str (nj_escape_str (un_str (nth_sx 0 a)) (un_nsyntax (nth_sx 1 a))));
   ("ninja.write", fun a => sx_opt (sx_pair sx_str sx_bool)
@@ -49,5 +85,30 @@ Definition table : list (string * (sx -> sx)) := [
         | Some cmd => L [sx_str (rule_command file (eval_edge_bindings file [] bs) (un_str (nth_sx 2 a)) (un_str (nth_sx 3 a)) cmd)]
         | None => L []
         end
-      else L [])
+      else L []);
+  (* ---- the manifest structure parser and edge evaluation (NinjaManifest.v) ---- *)
+  (* ---- NinjaFile.write and writer.py on an empty file (NinjaFileWrite.v) ---- *)
+  ("ninja.file_write", fun a => sx_opt sx_str (nf_write (cls_of (nth_sx 0 a)) (un_wfile (nth_sx 1 a))));
+  (* [uw, bfgfile, outs, ins, implicit, order_only, command, console, phony, opt description] *)
+  ("ninja.command_build", fun a => sx_opt sx_str (nf_write (cls_of (nth_sx 0 a))
+      (w_command_build (un_str (nth_sx 1 a)) (un_strs (nth_sx 2 a)) (un_strs (nth_sx 3 a)) (un_strs (nth_sx 4 a))
+         (un_strs (nth_sx 5 a)) (un_strs (nth_sx 6 a)) (un_bool (nth_sx 7 a)) (un_bool (nth_sx 8 a))
+         (un_opt un_str (nth_sx 9 a)))));
+  (* [uw, bfgfile, cc words, global flags, target flags, src, obj] *)
+  ("ninja.compile_file", fun a => sx_opt sx_str (nf_write (cls_of (nth_sx 0 a))
+      (w_compile_file (un_str (nth_sx 1 a)) (un_strs (nth_sx 2 a)) (un_strs (nth_sx 3 a)) (un_strs (nth_sx 4 a))
+         (un_str (nth_sx 5 a)) (un_str (nth_sx 6 a)))));
+  ("ninja.lex_value", fun a => sx_opt sx_toks (lex_value (un_str (nth_sx 0 a))));
+  ("ninja.split_lines", fun a => sx_list sx_str (split_lines (un_str (nth_sx 0 a))));
+  ("ninja.parse_manifest", fun a => sx_opt sx_manifest (parse_manifest (un_str (nth_sx 0 a))));
+  (* [text, override, output] *)
+  ("ninja.command_of", fun a => sx_opt sx_str
+      (match un_manifest a with Some m => command_of m (un_str (nth_sx 2 a)) | None => None end));
+  (* [text, override, output, key, escaped] *)
+  ("ninja.binding_of", fun a => sx_opt sx_str
+      (match un_manifest a with
+       | Some m => binding_of (un_bool (nth_sx 4 a)) m (un_str (nth_sx 2 a)) (un_str (nth_sx 3 a))
+       | None => None end));
+  (* [text, override] : command / depfile / deps / description of every edge, in order *)
+  ("ninja.edges", fun a => sx_opt (fun m => sx_list (sx_edge_values m) (m_edges m)) (un_manifest a))
 ]%string.
